@@ -1,4 +1,5 @@
 """C03 - keys, items and key lookup are aligned with iteration order (Model A)."""
+import os, warnings
 from .. import model_a
 
 PROP_FILE = 'props/C03.v'
@@ -94,6 +95,77 @@ def own_key_checks(ld, r, count):
     return fails
 
 
+def multi_part_key_lookup(ld, r, count):
+    """concatenations / interspersions / key-zips whose parts are stages of different classes (plain, mapped, selected, sorted, cached,
+    disk-cached, items(), catching): every key that keys() lists is served by ds[key] with its own example - whichever part holds it -
+    and an absent key is refused"""
+    import tempfile, shutil
+    fails = []
+    KINDS = ['plain', 'map', 'slice', 'sort', 'cache', 'cache_map', 'items_values', 'catch', 'prefetch1', 'diskcache']
+    tmp = tempfile.mkdtemp(prefix='c03_')
+    try:
+        with warnings.catch_warnings():
+            warnings.simplefilter('ignore')
+            for ci in range(count):
+                nparts = r.choice([2, 2, 3])
+                parts, own, allkeys = [], {}, []
+                for pi in range(nparts):
+                    m = r.randint(1, 3)
+                    ks = [f'p{pi}_{j}' + ('x' * r.randint(0, 2)) for j in range(m)]
+                    vs = [r.choice([None, 0, 7, 'v', (1,)]) if r.random() < 0.3 else 100 * pi + j for j in range(m)]
+                    base = ld.new(dict(zip(ks, vs)))
+                    kind = r.choice(KINDS)
+                    if kind == 'plain': d = base
+                    elif kind == 'map': d = base.map(_same03)
+                    elif kind == 'slice': d = base[::-1]; ks, vs = ks[::-1], vs[::-1]
+                    elif kind == 'sort': d = base.sort()
+                    elif kind == 'cache': d = base.cache()
+                    elif kind == 'cache_map': d = base.cache().map(_same03)
+                    elif kind == 'items_values': d = base.items().map(_second03)
+                    elif kind == 'catch': d = base.catch()
+                    elif kind == 'prefetch1': d = base.prefetch(1, 2)
+                    else: d = base.diskcache(cache_dir=os.path.join(tmp, f'd{ci}_{pi}'))
+                    parts.append((kind, d))
+                    own.update(zip(ks, vs))
+                    allkeys += ks
+                comb = r.choice(['concatenate', 'intersperse'])
+                try:
+                    ds = ld.concatenate(*[d for _k, d in parts]) if comb == 'concatenate' else ld.intersperse(*[d for _k, d in parts])
+                    listed = list(ds.keys())
+                except Exception:
+                    continue            # a combination that has no key view (e.g. a part without keys()) is refused loudly: fine
+                what = f'{comb} of parts {[k for k, _d in parts]} with keys {allkeys}'
+                if sorted(listed) != sorted(allkeys):
+                    fails.append(f'{what}: keys() = {listed}')
+                    continue
+                for k in listed:
+                    try:
+                        v = ds[k]
+                    except Exception as e:
+                        fails.append(f'{what}: ds[{k!r}] raised {type(e).__name__}: {e} although keys() lists the key'[:500])
+                        break
+                    if repr(v) != repr(own[k]):
+                        fails.append(f'{what}: ds[{k!r}] = {v!r}, the example stored under that key is {own[k]!r}')
+                        break
+                else:
+                    for k in ('zz9', 'p0_'):
+                        try:
+                            v = ds[k]
+                            fails.append(f'{what}: ds[{k!r}] returned {v!r} although the key is absent')
+                        except Exception:
+                            pass
+                del ds, parts
+    finally:
+        import gc
+        gc.collect()
+        shutil.rmtree(tmp, ignore_errors=True)
+    return fails
+
+
+def _second03(kv):
+    return kv[1]
+
+
 def key_source_history(ld, r, count):
     """dict-backed sources of every immutability mode built from a plain dict, a defaultdict, a Counter or an OrderedDict: keys(),
     items(), len and key lookup stay aligned - an absent key is refused (also by a source mapping that would invent a value for it),
@@ -159,6 +231,9 @@ def run(tier):
     for msg in key_source_history(common.import_impl(), common.rng_for('C03src'), cnt)[:5]:
         res['failures'].append(dict(kind='program', summary=msg[:800]))
     res['coverage']['key_source_histories'] = cnt
+    for msg in multi_part_key_lookup(common.import_impl(), common.rng_for('C03parts'), cnt)[:5]:
+        res['failures'].append(dict(kind='program', summary=msg[:800]))
+    res['coverage']['multi_part_key_lookups'] = cnt
     return res
 
 
